@@ -4,9 +4,12 @@
   Statements are about `CijModel/Evec.lean` (the functions the driver runs against the real `evec_sort`,
   `evec_disp2eig`, `evec_load`).  The greedy loop is proved over ANY linearly ordered type with a zero; the
   margin theorem over any real or complex inner-product space; the conversion over ℝ-pairs (`Cx ℝ`).
+  The two are joined: the model's `overlap` on ℝ-pairs is Mathlib's `inner` on `EuclideanSpace ℂ (Fin n)`
+  (`overlap_is_inner`), hence `evecSort_recovers` — the end-to-end statement about `Evec.evecSort` itself.
   Floating-point rounding, `float()` and the regex engine are outside the model.
 -/
 import CijProofs.Lemmas.Evec
+import CijProofs.Lemmas.EvecBridge
 
 namespace Cij.C20
 open Cij Cij.Evec
@@ -149,6 +152,146 @@ example (n : ℕ) (b t δ : ℕ → E) (c : ℕ → 𝕜) (σ π : ℕ → ℕ)
   (sort_recovers_perturbed n b t δ c σ π (1 / 20) hnorm horth hc ht hδ (by norm_num) hσ hπ hσπ hπσ items).1
 
 end margin
+
+/-! ### the bridge: the model's overlaps ARE Mathlib's inner products; end-to-end statement about `Evec.evecSort` -/
+
+section bridge
+variable {ι : Type}
+
+/-- BRIDGE.  `Cx.toC : Cx ℝ → ℂ` and `toVec n : List (Cx ℝ) → EuclideanSpace ℂ (Fin n)` (Lemmas/EvecBridge.lean) turn the
+model's ℝ-pairs and lists into Mathlib's complex numbers and Euclidean vectors.  One entry of
+`numpy.conj(base) @ target.T` — the model's `overlap b t = Σ_k conj(b_k)·t_k` — is `⟪b, t⟫_ℂ` (Mathlib's inner product
+is conjugate-linear in its FIRST argument: the base vector is the conjugated one, as in the Python), and `numpy.abs` of
+it (`Cx.abs`, √(re²+im²) on pairs) is the norm `‖⟪b, t⟫‖` the margin theorems are about. -/
+theorem overlap_is_inner (n : ℕ) (b t : List (Cx ℝ)) (hb : b.length = n) (ht : t.length = n) :
+    Cx.toC (overlap b t) = inner ℂ (toVec n b) (toVec n t) ∧
+    Cx.abs (overlap b t) = ‖inner ℂ (toVec n b) (toVec n t)‖ :=
+  ⟨toC_overlap_eq_inner n b t hb ht, abs_overlap_eq_norm_inner n b t hb ht⟩
+
+/-- … and the squared norm is `Σ|v_k|²` on pairs -/
+theorem norm_sq_is_sumNormSq (n : ℕ) (v : List (Cx ℝ)) (hv : v.length = n) : ‖toVec n v‖ ^ 2 = sumNormSq v :=
+  norm_toVec_sq n v hv
+
+/-- SORT RECOVERS, END TO END — about `Evec.evecSort` itself (the function the driver runs against the real
+`evec_sort`), over ℝ-pairs.  `B`: `n = len(items)` base vectors, orthonormal for the model's Hermitian product;
+`T[j] = c_j · B[σ j] + D_j` component by component, with unit phases `|c_j|² = 1` and perturbation rows
+`Σ_k |D_j[k]|² ≤ ε²` (row norm ≤ ε; a perturbation matrix of operator norm ≤ ε has such rows), `0 ≤ ε < 1/2`; `σ`, `π`
+mutually inverse on `{0,…,n-1}`.  Then `evec_sort(items, T, B)` answers, position `i` holds `items[π i]` — the item
+whose vector is the re-phased, perturbed copy of base vector `i` — and the answer is a permutation of the items
+(in particular no `None` entry). -/
+theorem evecSort_recovers (items : List ι) (B T : List (List (Cx ℝ))) (c : ℕ → Cx ℝ) (D : ℕ → List (Cx ℝ))
+    (σ π : ℕ → ℕ) (ε : ℝ)
+    (hB : B.length = items.length) (hT : T.length = items.length) (hBl : ∀ v ∈ B, v.length = items.length)
+    (horth : ∀ (i k : ℕ) (hi : i < B.length) (hk : k < B.length),
+      overlap B[i] B[k] = if i = k then ⟨1, 0⟩ else ⟨0, 0⟩)
+    (hc : ∀ j < items.length, Cx.normSq (c j) = 1)
+    (hDl : ∀ j < items.length, (D j).length = items.length)
+    (hD : ∀ j < items.length, sumNormSq (D j) ≤ ε ^ 2) (hε0 : 0 ≤ ε) (hε : ε < 1 / 2)
+    (hTj : ∀ (j : ℕ) (hj : j < T.length),
+      T[j] = List.zipWith (fun bk dk => Cx.add (Cx.mul (c j) bk) dk) (B.getD (σ j) []) (D j))
+    (hσ : ∀ j < items.length, σ j < items.length) (hπ : ∀ i < items.length, π i < items.length)
+    (hσπ : ∀ i < items.length, σ (π i) = i) (hπσ : ∀ j < items.length, π (σ j) = j) :
+    evecSort items T B = some ((List.range items.length).map fun i => items[π i]?) ∧
+    (∀ i < items.length, ∃ x, items[π i]? = some x) ∧
+    ((List.range items.length).map fun i => items[π i]?).Perm (items.map some) := by
+  set n := items.length with hn
+  have hBget : ∀ i (hi : i < n), B.getD i [] = B[i]'(hB ▸ hi) := by
+    intro i hi; simp [List.getD_eq_getElem?_getD, hB, hi]
+  have hTget : ∀ j (hj : j < n), T.getD j [] = T[j]'(hT ▸ hj) := by
+    intro j hj; simp [List.getD_eq_getElem?_getD, hT, hj]
+  have hBlen : ∀ i < n, (B.getD i []).length = n := by
+    intro i hi; rw [hBget i hi]; exact hBl _ (List.getElem_mem _)
+  have hTlen : ∀ j < n, (T.getD j []).length = n := by
+    intro j hj
+    rw [hTget j hj, hTj j (hT ▸ hj), List.length_zipWith, hBlen _ (hσ j hj), hDl j hj, Nat.min_self]
+  -- the Mathlib side
+  have hnorm : ∀ i < n, ‖toVec n (B.getD i [])‖ = 1 := by
+    intro i hi
+    have h1 := norm_toVec_sq n _ (hBlen i hi)
+    have h2 := horth i i (hB ▸ hi) (hB ▸ hi)
+    rw [overlap_self, if_pos rfl] at h2
+    have h3 : sumNormSq (B.getD i []) = 1 := by rw [hBget i hi]; exact congrArg Cx.re h2
+    rw [h3] at h1
+    have h0 := norm_nonneg (toVec n (B.getD i []))
+    nlinarith
+  have horth' : ∀ i < n, ∀ k < n, i ≠ k → inner ℂ (toVec n (B.getD i [])) (toVec n (B.getD k [])) = 0 := by
+    intro i hi k hk hik
+    rw [← toC_overlap_eq_inner n _ _ (hBlen i hi) (hBlen k hk), hBget i hi, hBget k hk,
+      horth i k (hB ▸ hi) (hB ▸ hk), if_neg hik]
+    exact toC_zero
+  have hc' : ∀ j < n, ‖Cx.toC (c j)‖ = 1 := by
+    intro j hj
+    have h1 := normSq_eq_norm_sq (c j)
+    rw [hc j hj] at h1
+    have h0 := norm_nonneg (Cx.toC (c j))
+    nlinarith
+  have ht : ∀ j < n, toVec n (T.getD j []) = Cx.toC (c j) • toVec n (B.getD (σ j) []) + toVec n (D j) := by
+    intro j hj
+    rw [hTget j hj, hTj j (hT ▸ hj)]
+    exact toVec_combination n (c j) _ _ (hBlen _ (hσ j hj)) (hDl j hj)
+  have hδ : ∀ j < n, ‖toVec n (D j)‖ ≤ ε := by
+    intro j hj
+    calc ‖toVec n (D j)‖ = Real.sqrt (‖toVec n (D j)‖ ^ 2) := (Real.sqrt_sq (norm_nonneg _)).symm
+      _ ≤ Real.sqrt (ε ^ 2) := Real.sqrt_le_sqrt (by rw [norm_toVec_sq n _ (hDl j hj)]; exact hD j hj)
+      _ = ε := Real.sqrt_sq hε0
+  have hP' := planted_of_perturbed n (fun i => toVec n (B.getD i [])) (fun j => toVec n (T.getD j []))
+    (fun j => toVec n (D j)) (fun j => Cx.toC (c j)) σ π ε hnorm horth' hc' ht hδ hε hσ hπ hσπ hπσ
+  -- the model side: the matrix inside `evecSort` is that matrix
+  have hP : Planted n (magMat T B) π := by
+    apply Planted.congr hP'
+    intro i hi j hj
+    rw [magMat_apply T B i j (hB ▸ hi) (hT ▸ hj), ← hBget i hi, ← hTget j hj]
+    exact abs_overlap_eq_norm_inner n _ _ (hBlen i hi) (hTlen j hj)
+  have hd : dimsOk n T B = true := by
+    rw [dimsOk_iff]
+    refine ⟨hT, hB, ?_⟩
+    intro v hv
+    rcases List.mem_append.mp hv with hv | hv
+    · obtain ⟨j, hj, rfl⟩ := List.getElem_of_mem hv
+      rw [← hTget j (hT ▸ hj)]; exact hTlen j (hT ▸ hj)
+    · exact hBl v hv
+  obtain ⟨h1, h2⟩ := evecSort_planted items T B π hd hP
+  refine ⟨h1, ?_, h2⟩
+  intro i hi
+  exact ⟨items[π i]'(hπ i hi), List.getElem?_eq_getElem (hπ i hi)⟩
+
+/-- non-vacuity, explicit numbers (n = 2): base = the rotation (3/5, 4/5), (−4/5, 3/5); the two targets are the base
+vectors SWAPPED, multiplied by the phases `i` and `−1`, and perturbed by 1/10 in one component (ε = 1/10):
+`evec_sort(["x", "y"], T, B)` returns `["y", "x"]`. -/
+example :
+    evecSort ["x", "y"]
+      [[⟨1 / 10, -4 / 5⟩, ⟨0, 3 / 5⟩], [⟨-3 / 5, 0⟩, ⟨-4 / 5, -1 / 10⟩]]
+      [[(⟨3 / 5, 0⟩ : Cx ℝ), ⟨4 / 5, 0⟩], [⟨-4 / 5, 0⟩, ⟨3 / 5, 0⟩]] = some [some "y", some "x"] := by
+  have h := (evecSort_recovers ["x", "y"]
+    [[(⟨3 / 5, 0⟩ : Cx ℝ), ⟨4 / 5, 0⟩], [⟨-4 / 5, 0⟩, ⟨3 / 5, 0⟩]]
+    [[⟨1 / 10, -4 / 5⟩, ⟨0, 3 / 5⟩], [⟨-3 / 5, 0⟩, ⟨-4 / 5, -1 / 10⟩]]
+    (fun j => if j = 0 then ⟨0, 1⟩ else ⟨-1, 0⟩)
+    (fun j => if j = 0 then [⟨1 / 10, 0⟩, ⟨0, 0⟩] else [⟨0, 0⟩, ⟨0, -1 / 10⟩])
+    (fun j => 1 - j) (fun i => 1 - i) (1 / 10) rfl rfl
+    (by intro v hv; simp at hv; rcases hv with rfl | rfl <;> rfl)
+    (by
+      intro i k hi hk
+      simp only [List.length_cons, List.length_nil] at hi hk
+      interval_cases i <;> interval_cases k <;>
+        simp [overlap, Cx.add, Cx.mul, Cx.conj, Cx.zero] <;> norm_num)
+    (by intro j _; by_cases hj : j = 0 <;> simp [hj, Cx.normSq])
+    (by intro j _; by_cases hj : j = 0 <;> simp [hj])
+    (by intro j _; by_cases hj : j = 0 <;> simp [hj, sumNormSq, Cx.normSq] <;> norm_num)
+    (by norm_num) (by norm_num)
+    (by
+      intro j hj
+      simp only [List.length_cons, List.length_nil] at hj
+      interval_cases j
+      all_goals simp [Cx.add, Cx.mul]
+      all_goals norm_num)
+    (by intro j hj; simp only [List.length_cons, List.length_nil] at hj ⊢; omega)
+    (by intro j hj; simp only [List.length_cons, List.length_nil] at hj ⊢; omega)
+    (by intro j hj; simp only [List.length_cons, List.length_nil] at hj ⊢; omega)
+    (by intro j hj; simp only [List.length_cons, List.length_nil] at hj ⊢; omega)).1
+  rw [h]
+  rfl
+
+end bridge
 
 /-- a concrete instance of `Planted` run through the model (3 vectors, rotated by one place, 5 % leakage) -/
 example :
